@@ -132,7 +132,7 @@ PROPS = {
     ),
     'C20': dict(
         comps=['mon_c20'],
-        theorems=['C20_bound', 'C20_clone', 'C20_drop_into_iter', 'C20_hash_points'],
+        theorems=['C20_bound', 'C20_clone', 'C20_drop_into_iter', 'C20_hash_points', 'C20_monitor_sound'],
         assumptions=['the bound is evaluated on the implementation from observed quantities (hash calls of the instrumented key, departures, whether the table was rebuilt); that the implementation hashes no more than the model is logged, not required'],
     ),
 }
